@@ -19,6 +19,12 @@ CLAIMED = {
         "parse of the same text, for eager and lazy reading and through bnp.open on real files.",
         "Holds on the explored region only. The reference parse (int(), float(), str.split) and the grammars in pbt/formats.py and pbt/strategies.py are trusted; floats are compared within 8 ulp.",
         "Hypothesis grammar-based generation, reference-model oracle (independent Python parse)"),
+    "C15": (
+        "Fault injection over generated inputs: one format violation of each class is injected at every record position of a well-formed file; "
+        "exhaustive over small files x every chunk size x lazy/eager x plain/gzip, sampled for larger files of nine formats. Oracle: an exception "
+        "is raised by the time all rows are read, a FormatException names the offending line, and that line number equals the one from a whole-file read.",
+        "Holds on the explored region only. For column-count violations the admissible line numbers are p and p+1 (which of two disagreeing lines offends is not determined by the file) and the cross-configuration comparison is not applied to them.",
+        "exhaustive enumeration + Hypothesis sampling of injected faults; oracle = must-raise + line-number invariant across configurations"),
 }
 
 PENDING_REASON = "check not built yet in this commit (work in progress, see DESIGN.md section 9); the technique applies"
